@@ -20,13 +20,13 @@ var c08Tokens = []string{
 	"<=", ">=", "==", "!=", "++", "--", "..", "||", "&&", "<<", ">>", "=>", ":=",
 	"func", "true", "false", "if", "else", "return", "for", "break", "continue", "macro", "quote", "unquote",
 	"len", "first", "rest", "print", "println", "log", "error", "catch", "del",
-	`"u`, "/* u", "\n", "@", "\x00", "\xff", "1e999", "0x", "//",
+	`"u`, "/* u", "\n", "@", "\x00", "\xff", "1e999", "0x", "//", "\r", "\t",
 }
 
 // one representative per parse-function / precedence class
 var c08Classes = []string{
 	"a", "1", `"s"`, "=", "+", "*", "/", "-", "!", "++", "==", "<", "&&", ":", "=>", ".", ",", ";", "(", ")", "{", "}", "[", "]",
-	"func", "if", "else", "for", "return", "break", "macro", "len", "quote", "\n", "// c\n", "/* c */", "..",
+	"func", "if", "else", "for", "return", "break", "macro", "len", "quote", "\n", "// c\n", "/* c */", "..", "\r", "//",
 }
 
 func c08One(src []byte, lineMode bool, kind string) *core.Viol {
@@ -289,7 +289,7 @@ func exampleFiles() []string {
 	return files
 }
 
-var c08MutBytes = []byte{'(', ')', '{', '}', '[', ']', '"', '`', '/', '*', '\n', ' ', '=', ':', ',', ';', '.', '-', '+', '!', '0', 'a', 0, 0xff}
+var c08MutBytes = []byte{'\r', '\t', '(', ')', '{', '}', '[', ']', '"', '`', '/', '*', '\n', ' ', '=', ':', ',', ';', '.', '-', '+', '!', '0', 'a', 0, 0xff}
 
 func runC08(c *core.Ctx) {
 	var bounds []string
